@@ -157,6 +157,14 @@ func selfTest(ctx *core.Ctx) error {
 			return core.Infra("self-test: %s should violate %s, got %q", nc.cfg, nc.inv, res.Invariant)
 		}
 	}
+	// the copier exactly as coded (all three switches) fails the design check at once
+	res, err := ctx.TLC(core.TLCOpts{Dir: "graph", Module: "MC_Copier", Cfg: "MC_Copier_ascoded.cfg", Workers: 4, Mode: "negative-control", XssMB: 512})
+	if err != nil {
+		return err
+	}
+	if res.Invariant == "" {
+		return core.Infra("self-test: the model of the copier as coded should not satisfy the design invariants")
+	}
 	ctx.Logf("self-test (ii): the copier as coded violates Shape (F4), NoPanic (F4b), Sharing and Once (F10); trans recorded after recursing violates Terminates; dropped /DecodeParms and verbatim reuse of encrypted bytes violate Shape")
 
 	// (iii) a wrong expectation of the generated table
